@@ -1,63 +1,114 @@
 (* Properties/C14.v — storage-class transitions preserve objects and route data.
-   Model: Model/Transition.v (objects = lists of part rows (id, store, content); part registry; named
-   stores; dedup index; the class -> store configuration [cfg] is a parameter of every step and may differ
-   from phase to phase).  Theorems hold for ALL states, configurations and arguments of the model; the two
-   byte-level theorems name their (local, checkable) well-formedness hypotheses explicitly. *)
+   Model: Model/Transition.v.  A key has ROWS (versions): harness ordinal, "null" version id?, delete marker?,
+   is_latest, created_at rank, object record (class, part rows (id, store, content), metadata, tags, ETag style).
+   Buckets are Unversioned / Enabled / Suspended; a request addresses a row by no version id (the is_latest
+   row), by the version id of a given row, by the literal id "null", or by an unknown id.  Part registry,
+   named stores, dedup index as before; the class -> store configuration [cfg] is a parameter of every step
+   and may differ from phase to phase.  Theorems hold for ALL states, configurations and arguments of the
+   model; the byte-level theorems name their (local, checkable) well-formedness hypotheses explicitly. *)
 From Verif Require Import Bytes Codec Transition TransitionProofs TransitionOps.
 
-(* a successful transition keeps the version (same address, same list of version ordinals), the content
-   (content ids of the parts, hence size and ETag), metadata and tags; only the class changes; every part
-   row of the object then names the store the configuration maps the target class to; other keys are untouched *)
-Theorem C14_transition_preserves : forall cfg s k v c s',
-  step cfg s (OTransition k v c) = (s', None) ->
-  exists o o', find_version s k v = Some o /\ find_version s' k v = Some o' /\ valid_class c = true /\
-    o_class o' = Some c /\ o_meta o' = o_meta o /\ o_tags o' = o_tags o /\
-    map p_cont (o_parts o') = map p_cont (o_parts o) /\
-    map fst (versions_of k (s_objs s')) = map fst (versions_of k (s_objs s)) /\
+(* the row a selector resolves to carries what the selector names: "null" resolves to the row whose version
+   id is "null" (current or not), never to "whatever is current" *)
+Theorem C14_resolve_addresses : forall vs v i r,
+  resolve vs v = Some i -> nth_error vs i = Some r ->
+  match v with
+  | VLatest => v_latest r = true
+  | VOrd n => v_ord r = n
+  | VNull => v_null r = true
+  | VUnknown => False
+  end.
+Proof. exact resolve_addresses. Qed.
+Print Assumptions C14_resolve_addresses.
+
+(* EXACTLY the addressed version changes: it keeps its ordinal / version id / delete-marker and is_latest
+   flags / created_at, its content (content ids, hence size and ETag), ETag style, metadata and tags; its class
+   becomes the target; every one of its part rows names the store the configuration in force maps the TARGET
+   class to (whatever the object's previous class maps to); an If-Match, if given, equals the ETag of the
+   ADDRESSED version.  Every other row of the key, every other key and the bucket states are untouched. *)
+Theorem C14_transition_preserves : forall cfg s k v c im s',
+  step cfg s (OTransition k v c im) = (s', None) ->
+  exists i r o',
+    resolve (versions_of k (s_objs s)) v = Some i /\ nth_error (versions_of k (s_objs s)) i = Some r /\
+    v_dm r = false /\ valid_class c = true /\ ifmatch_holds s k r im /\
+    nth_error (versions_of k (s_objs s')) i = Some (set_obj o' r) /\
+    o_class o' = Some c /\ o_meta o' = o_meta (v_obj r) /\ o_tags o' = o_tags (v_obj r) /\ o_mp o' = o_mp (v_obj r) /\
+    map p_cont (o_parts o') = map p_cont (o_parts (v_obj r)) /\
     (forall p, In p (o_parts o') -> p_store p = cfg_get c cfg) /\
-    (forall k' v', k' <> k -> find_version s' k' v' = find_version s k' v').
+    (forall j, j <> i -> nth_error (versions_of k (s_objs s')) j = nth_error (versions_of k (s_objs s)) j) /\
+    length (versions_of k (s_objs s')) = length (versions_of k (s_objs s)) /\
+    (forall k', k' <> k -> versions_of k' (s_objs s') = versions_of k' (s_objs s)) /\
+    s_st0 s' = s_st0 s /\ s_st1 s' = s_st1 s.
 Proof. exact transition_preserves. Qed.
 Print Assumptions C14_transition_preserves.
 
-(* ... and the named store holds the bytes: the n-th part row after the transition is backed, in the store
-   it names, by exactly what backed the n-th row before.  Hypotheses on the pre-state: the object's part ids
-   were allocated (below the fresh-id counter) and one part id lives in one store. *)
-Theorem C14_transition_routes : forall cfg s k v c s' o,
-  step cfg s (OTransition k v c) = (s', None) -> find_version s k v = Some o ->
-  (forall p, In p (o_parts o) -> (p_id p < s_nextp s)%N) ->
-  (forall p q, In p (o_parts o) -> In q (o_parts o) -> p_id p = p_id q -> p_store p = p_store q) ->
-  exists o', find_version s' k v = Some o' /\
-    forall n, option_map (blob_of s') (nth_error (o_parts o') n) = option_map (blob_of s) (nth_error (o_parts o) n).
+(* ... and the named store holds the bytes: the n-th part row of the addressed version after the transition is
+   backed, in the store it names, by exactly what backed its n-th row before.  Hypotheses on the pre-state: the
+   version's part ids were allocated (below the fresh-id counter) and one part id lives in one store. *)
+Theorem C14_transition_routes : forall cfg s k v c im s' i r,
+  step cfg s (OTransition k v c im) = (s', None) ->
+  resolve (versions_of k (s_objs s)) v = Some i -> nth_error (versions_of k (s_objs s)) i = Some r ->
+  (forall p, In p (o_parts (v_obj r)) -> (p_id p < s_nextp s)%N) ->
+  (forall p q, In p (o_parts (v_obj r)) -> In q (o_parts (v_obj r)) -> p_id p = p_id q -> p_store p = p_store q) ->
+  exists r', nth_error (versions_of k (s_objs s')) i = Some r' /\
+    forall n, option_map (blob_of s') (nth_error (o_parts (v_obj r')) n) = option_map (blob_of s) (nth_error (o_parts (v_obj r)) n).
 Proof. exact transition_routes_bytes. Qed.
 Print Assumptions C14_transition_routes.
 
-Theorem C14_transition_reads_same : forall cfg s k v c s' o,
-  step cfg s (OTransition k v c) = (s', None) -> find_version s k v = Some o ->
-  (forall p, In p (o_parts o) -> (p_id p < s_nextp s)%N) ->
-  (forall p q, In p (o_parts o) -> In q (o_parts o) -> p_id p = p_id q -> p_store p = p_store q) ->
+Theorem C14_transition_reads_same : forall cfg s k v c im s' i r,
+  step cfg s (OTransition k v c im) = (s', None) ->
+  resolve (versions_of k (s_objs s)) v = Some i -> nth_error (versions_of k (s_objs s)) i = Some r ->
+  (forall p, In p (o_parts (v_obj r)) -> (p_id p < s_nextp s)%N) ->
+  (forall p q, In p (o_parts (v_obj r)) -> In q (o_parts (v_obj r)) -> p_id p = p_id q -> p_store p = p_store q) ->
   read s' k v = read s k v.
 Proof. exact transition_reads_same. Qed.
 Print Assumptions C14_transition_reads_same.
 
 (* shared / deduplicated parts survive the transition of one of their sharers: a stored part keeps its bytes
-   unless the transitioned object holds ALL registered references to its id (the refcount argument) *)
-Theorem C14_shared_parts_survive : forall cfg s k v c s' o st i,
-  step cfg s (OTransition k v c) = (s', None) -> find_version s k v = Some o ->
-  (i < s_nextp s)%N ->
-  (rows_with i (o_parts o) = 0 \/ rows_with i (o_parts o) < reg_get i (s_reg s))%N ->
-  blob_get (st, i) (s_blobs s') = blob_get (st, i) (s_blobs s).
+   unless the transitioned version holds ALL registered references to its id (the refcount argument) *)
+Theorem C14_shared_parts_survive : forall cfg s k v c im s' i r st id,
+  step cfg s (OTransition k v c im) = (s', None) ->
+  resolve (versions_of k (s_objs s)) v = Some i -> nth_error (versions_of k (s_objs s)) i = Some r ->
+  (id < s_nextp s)%N ->
+  (rows_with id (o_parts (v_obj r)) = 0 \/ rows_with id (o_parts (v_obj r)) < reg_get id (s_reg s))%N ->
+  blob_get (st, id) (s_blobs s') = blob_get (st, id) (s_blobs s).
 Proof. exact transition_spares. Qed.
 Print Assumptions C14_shared_parts_survive.
 
-Theorem C14_sharers_stay_readable : forall cfg s k v c s' o qs,
-  step cfg s (OTransition k v c) = (s', None) -> find_version s k v = Some o ->
+Theorem C14_sharers_stay_readable : forall cfg s k v c im s' i r qs,
+  step cfg s (OTransition k v c im) = (s', None) ->
+  resolve (versions_of k (s_objs s)) v = Some i -> nth_error (versions_of k (s_objs s)) i = Some r ->
   (forall q, In q qs -> (p_id q < s_nextp s)%N /\
-                        (rows_with (p_id q) (o_parts o) = 0 \/ rows_with (p_id q) (o_parts o) < reg_get (p_id q) (s_reg s))%N) ->
+       (rows_with (p_id q) (o_parts (v_obj r)) = 0 \/ rows_with (p_id q) (o_parts (v_obj r)) < reg_get (p_id q) (s_reg s))%N) ->
   read_parts s' qs = read_parts s qs.
 Proof. exact transition_spares_object. Qed.
 Print Assumptions C14_sharers_stay_readable.
 
-(* failure cases leave the state unchanged (any operation, any configuration) *)
+(* every OTHER version of the key — also one that shares (deduplicated) parts with the addressed one — is the
+   same row afterwards, is addressed by the same selectors, and reads the same bytes *)
+Theorem C14_other_versions_untouched : forall cfg s k v c im s' i r j rj,
+  step cfg s (OTransition k v c im) = (s', None) ->
+  resolve (versions_of k (s_objs s)) v = Some i -> nth_error (versions_of k (s_objs s)) i = Some r ->
+  j <> i -> nth_error (versions_of k (s_objs s)) j = Some rj ->
+  (forall q, In q (o_parts (v_obj rj)) -> (p_id q < s_nextp s)%N /\
+       (rows_with (p_id q) (o_parts (v_obj r)) = 0 \/ rows_with (p_id q) (o_parts (v_obj r)) < reg_get (p_id q) (s_reg s))%N) ->
+  nth_error (versions_of k (s_objs s')) j = Some rj /\
+  (forall w, resolve (versions_of k (s_objs s')) w = resolve (versions_of k (s_objs s)) w) /\
+  read_parts s' (o_parts (v_obj rj)) = read_parts s (o_parts (v_obj rj)).
+Proof. exact transition_other_versions. Qed.
+Print Assumptions C14_other_versions_untouched.
+
+(* an If-Match that differs from the ETag of the ADDRESSED version refuses the transition *)
+Theorem C14_ifmatch_mismatch_refused : forall cfg s k v c n i r rr,
+  known_version s k v = true -> valid_class c = true ->
+  resolve (versions_of k (s_objs s)) v = Some i -> nth_error (versions_of k (s_objs s)) i = Some r -> v_dm r = false ->
+  find_row s k (VOrd n) = Some rr -> v_dm rr = false -> etag_eqb (v_obj r) (v_obj rr) = false ->
+  step cfg s (OTransition k v c (IMOrd n)) = (s, Some PreconditionFailed).
+Proof. exact transition_ifmatch_mismatch. Qed.
+Print Assumptions C14_ifmatch_mismatch_refused.
+
+(* failure cases (unknown version, delete marker, invalid class, If-Match, ...) leave the state unchanged — any
+   operation, any configuration *)
 Theorem C14_failure_leaves_state_unchanged : forall cfg s o e,
   snd (step cfg s o) = Some e -> fst (step cfg s o) = s.
 Proof. exact failed_step_unchanged. Qed.
@@ -80,18 +131,29 @@ Definition C14_shared_state : state :=
   run C14_cfg1 init [OPut (0, 0)%N (Some B"GLACIER") 7 1 1; OPut (0, 1)%N (Some B"GLACIER") 7 2 2].
 Example C14_ex_shared : show_counts C14_shared_state = B"0,1,0" /\ reg_get 0 (s_reg C14_shared_state) = 2%N.
 Proof. vm_compute. split; reflexivity. Qed.
-(* one sharer moves to the default store: the other one still reads its bytes from store 1 *)
 Example C14_ex_transition :
-  let s' := fst (step C14_cfg1 C14_shared_state (OTransition (0, 0)%N None B"STANDARD")) in
-  show_read s' (0, 0)%N None = B"5354414e44415244|7|1|1|0" /\
-  show_read s' (0, 1)%N None = B"474c4143494552|7|2|2|1" /\ show_counts s' = B"1,1,0".
+  let s' := fst (step C14_cfg1 C14_shared_state (OTransition (0, 0)%N VLatest B"STANDARD" IMNone)) in
+  show_read s' (0, 0)%N VLatest = B"5354414e44415244|7|1|1|0|s" /\
+  show_read s' (0, 1)%N VLatest = B"474c4143494552|7|2|2|1|s" /\ show_counts s' = B"1,1,0".
 Proof. vm_compute. repeat split; reflexivity. Qed.
-(* after a remap of GLACIER to store 2, an append puts the new part there; a transition to GLACIER then
-   moves only the old part *)
-Example C14_ex_remap :
-  let s1 := run C14_cfg2 C14_shared_state [OAppend (0, 1)%N 8] in
-  let s2 := run C14_cfg2 s1 [OTransition (0, 1)%N None B"GLACIER"] in
-  show_read s1 (0, 1)%N None = B"474c4143494552|7.8|2|2|1.2" /\
-  show_read s2 (0, 1)%N None = B"474c4143494552|7.8|2|2|2.2" /\
-  show_read s2 (0, 0)%N None = B"474c4143494552|7|1|1|1".
+(* the lifecycle case: a null version written while unversioned becomes noncurrent under a newer version with the
+   SAME content (same ETag, one shared part); transitioning "null" changes the null row only *)
+Definition C14_noncurrent_null : state :=
+  run C14_cfg1 init [OPut (0, 0)%N None 7 1 1; OVersioning 0 Enabled; OPut (0, 0)%N None 7 2 2].
+Example C14_ex_null_noncurrent :
+  let s' := fst (step C14_cfg1 C14_noncurrent_null (OTransition (0, 0)%N VNull B"GLACIER" (IMOrd 1))) in
+  show_read C14_noncurrent_null (0, 0)%N VNull = B"5354414e44415244|7|1|1|0|s" /\
+  reg_get 0 (s_reg C14_noncurrent_null) = 2%N /\
+  show_read s' (0, 0)%N VNull = B"474c4143494552|7|1|1|1|s" /\
+  show_read s' (0, 0)%N VLatest = B"5354414e44415244|7|2|2|0|s" /\
+  show_read s' (0, 0)%N (VOrd 1) = B"5354414e44415244|7|2|2|0|s".
+Proof. vm_compute. repeat split; reflexivity. Qed.
+(* remapped configuration: written under cfg1 (STANDARD -> store 0); under cfg2 STANDARD and STANDARD_IA... here
+   GLACIER maps to store 2 and STANDARD to store 1: an object recorded in store 0 with class STANDARD that is
+   transitioned to REDUCED_REDUNDANCY (unmapped -> store 0) stays, one transitioned to STANDARD moves to store 1 *)
+Example C14_ex_remap_recorded_store :
+  let s0 := run C14_cfg1 init [OPut (0, 2)%N None 5 0 0] in
+  let s1 := fst (step C14_cfg2 s0 (OTransition (0, 2)%N VLatest B"STANDARD" IMNone)) in
+  show_read s0 (0, 2)%N VLatest = B"5354414e44415244|5|0|0|0|s" /\
+  show_read s1 (0, 2)%N VLatest = B"5354414e44415244|5|0|0|1|s".
 Proof. vm_compute. repeat split; reflexivity. Qed.
